@@ -29,6 +29,28 @@ Section G.
     split; [rewrite r_scct_decrypt_with_shares; exact Ha|].
     exists dk. rewrite r_scdk_from_shares, r_scdk_decrypt. split; assumption.
   Qed.
+  (* C12: participant i's decryption share, as the translated create_decryption_share computes it, is f(i) * U *)
+  Theorem generated_decryption_share_is_f_i_U (ct : sc_ct) (coeffs : list (car K)) (i : N) :
+    gen_SignCryptCiphertext_create_decryption_share E ct (share_of K O coeffs i)
+    = Val (Ok (pk_share_of K O coeffs (dl (sc_u ct)) i)).
+  Proof. rewrite r_scct_create_decryption_share, (C12_share_is_f_i_U K O C OL ct coeffs i). reflexivity. Qed.
+
+  (* C12: exact acceptance condition of the translated BlsSignCrypt::verify_share *)
+  Theorem generated_decryption_share_verify_exact (sh pk u : pt K Gpk) (v : bytes) (w : pt K Gsig) (dst : bytes) :
+    (dbg = true -> Hw K O u v dst <> f0 K) ->
+    exists b : bool,
+      gen_BlsSignCrypt_verify_share E sh pk u v w dst = Val b
+      /\ (b = true <-> dl sh <> f0 K /\ dl pk <> f0 K /\ dl w <> f0 K
+                       /\ fmul K (dl w) (dl pk) = fmul K (Hw K O u v dst) (dl sh)).
+  Proof. intros H. rewrite r_sc_verify_share. apply (C12_share_verify_exact K laws O dbg sh pk u v w dst H). Qed.
+
+  (* C12: fewer than two shares open nothing in the translated decrypt_with_shares *)
+  Theorem generated_decrypt_with_fewer_than_two (ct : sc_ct) (shares : list share) :
+    (length shares < 2)%nat -> gen_SignCryptCiphertext_decrypt_with_shares E ct shares = Val None.
+  Proof. intros H. rewrite r_scct_decrypt_with_shares. apply (C12_fewer_than_two K O C dbg ct shares H). Qed.
 End G.
 
 Print Assumptions generated_threshold_decrypt.
+Print Assumptions generated_decryption_share_is_f_i_U.
+Print Assumptions generated_decryption_share_verify_exact.
+Print Assumptions generated_decrypt_with_fewer_than_two.
